@@ -659,3 +659,185 @@ def check_detector(fn, F=None, target_field=None):
     if stats["accept"] < 1 or stats["copy"] < 1 or stats["end-clean"] < 1 or stats["report"] < 1:
         problems.append((where, "the scanner has no %s path" % ", ".join(k for k in ("copy", "accept", "report", "end-clean") if stats[k] < 1)))
     return not problems, problems, stats
+
+
+def check_glob(fn, F=None):
+    """conformance of a recursive wildcard matcher (match_glob) with the glob transducer over (pattern cursor G, string cursor S):
+         star      G[0] == '*': the rest of the pattern is tried at the SAME string position, match(G + 1, S); non-zero -> report a match,
+                   zero -> G' = G, S' = S + 1
+         one       G[0] != '*' and (G[0] == '?' or G[0] == S[0], compared as stored bytes): G' = G + 1, S' = S + 1
+         mismatch  otherwise: no match
+       and at the end of the string: trailing '*'s are passed over and the verdict is G[0] == NUL.  Returns (ok, problems, stats)."""
+    S_ = Scanner(fn, F)
+    problems = []
+    loops = S_.find_scan_loop()
+    main = [l for l in loops if len(l[2]) == 1]
+    if not main:
+        return False, [("%s:%s" % (fn.file, fn.line), "not recognised as a glob matcher: no loop over the string with one pattern cursor")], {}
+    L, R, others, ps, env0 = main[0]
+    G = others[0]
+    hdr = fn.blocks[L["header"]]
+    where = "%s:%s" % (fn.file, hdr.term.line())
+    Sp, Gp = (("v", R.id), 0), (("v", G.id), 0)
+    STAR, QM = 42, 63
+    stats = {"paths": 0, "star-advance": 0, "star-match": 0, "one": 0, "mismatch": 0, "end": 0}
+
+    def byte_consts(path, at):
+        """constants the byte at `at` is known (True) / known not (False) to equal on this path"""
+        eq, ne = set(), set()
+        for f, env in path.facts:
+            if f[0] in ("eq", "ne") and is_const(f[2]) and const_val(f[2]) is not None and S_.byte_at(f[1], env) == at:
+                (eq if f[0] == "eq" else ne).add(const_val(f[2]) & 0xFF)
+        return eq, ne
+
+    def same_byte(path):
+        """True / False / None: G[0] == S[0] established / refuted / unknown (a comparison of the two loaded bytes themselves)"""
+        res = None
+        for f, env in path.facts:
+            if f[0] in ("eq", "ne") and not is_const(f[2]):
+                a, b = S_.byte_at(f[1], env), S_.byte_at(f[2], env)
+                if {a, b} == {Sp, Gp} and a != b:
+                    # both operands must be the plain widened bytes (no case folding or masking in between)
+                    res = (f[0] == "eq")
+        return res
+
+    def rec_call(path):
+        """(call instruction, truth of its result on this path) for a recursive call match(G + 1, S)"""
+        out = []
+        for f, env in path.facts:
+            d = fn.defn(S_.resolve(f[1], env)) if not is_const(f[1]) else None
+            if d is not None and not d.is_param and d.op == "call" and d.callee == fn.name and is_const(f[2]) and const_val(f[2]) == 0 and f[0] in ("eq", "ne"):
+                out.append((d, f[0] == "ne", env))
+        return out
+
+    # further integer parameters are matching modes (an option the caller passes down unchanged): what the matcher does under a non-zero
+    # mode is outside the property (which speaks of the default, exact matching); such paths are counted, not judged
+    modes = [q for q in fn.params[2:] if not q.ty.endswith("*")]
+    stats["mode-paths"] = 0
+
+    def under_mode(path):
+        for f, env in path.facts:
+            if f[0] == "ne" and is_const(f[2]) and const_val(f[2]) == 0:
+                x = S_.resolve(f[1], env)
+                d = fn.defn(x)
+                while d is not None and not d.is_param and d.op in ("zext", "sext", "trunc"):
+                    d = fn.defn(d.ops[0])
+                if d is not None and d.is_param and any(d.id == q.id for q in modes):
+                    return True
+        return False
+
+    for p in ps:
+        stats["paths"] += 1
+        desc = "path %s" % "-".join(str(b) for b in p.blocks)
+        if p.end == "overflow":
+            problems.append((where, "too many paths through one iteration"))
+            continue
+        if modes and under_mode(p):
+            stats["mode-paths"] += 1
+            continue
+        geq, gne = byte_consts(p, Gp)
+        calls = rec_call(p)
+        if p.end == "back":
+            g2 = S_.ptr(p.env.get(G.id), {})
+            if g2 == Gp:
+                # star-advance: only under '*' and after the rest of the pattern failed at this very position
+                okc = [c for c, truth, env in calls if not truth and S_.ptr(c.ops[0], env) == (Gp[0], 1) and S_.ptr(c.ops[1], env) == Sp]
+                if STAR in geq and okc:
+                    stats["star-advance"] += 1
+                else:
+                    problems.append((where, "%s: the string advances with the pattern standing still, but not (pattern byte '*' and the rest of the pattern tried and failed at this position)" % desc))
+            elif g2 == (Gp[0], 1):
+                sb = same_byte(p)
+                if STAR not in geq and (STAR in gne) and (QM in geq or sb is True):
+                    stats["one"] += 1
+                else:
+                    problems.append((where, "%s: pattern and string both advance without the facts (pattern byte is not '*') and (it is '?' or equals the string byte)" % desc))
+            else:
+                problems.append((where, "%s: the pattern cursor moves to %s+%d" % (desc, g2[0], g2[1])))
+            continue
+        if p.end == "exit-ret":
+            (eb, es), v = p.info
+            at_end = eb == L["header"] and S_.nul_fact(p, Sp) is True
+            if at_end:
+                stats["end"] += 1
+                continue                # decided below on the trailing part
+            if v is None or not is_const(v):
+                problems.append((where, "%s: a verdict inside the loop that is not a constant" % desc))
+                continue
+            if const_val(v) != 0:
+                okc = [c for c, truth, env in calls if truth and S_.ptr(c.ops[0], env) == (Gp[0], 1) and S_.ptr(c.ops[1], env) == Sp]
+                if STAR in geq and okc:
+                    stats["star-match"] += 1
+                else:
+                    problems.append((where, "%s: a match is reported inside the loop without (pattern byte '*' and the rest of the pattern matching at this position)" % desc))
+            else:
+                sb = same_byte(p)
+                if STAR in gne and QM in gne and sb is False:
+                    stats["mismatch"] += 1
+                else:
+                    problems.append((where, "%s: 'no match' is reported although the pattern byte may be '*', '?' or equal to the string byte" % desc))
+            continue
+        problems.append((where, "%s: ends in %s" % (desc, p.end)))
+    # the recursive calls: exactly match(G + 1, S)
+    for c in [i for i in fn.insts() if i.op == "call" and i.callee == fn.name]:
+        a0, a1 = S_.ptr(c.ops[0], {}), S_.ptr(c.ops[1], {})
+        for k, q in enumerate(fn.params[2:], 2):
+            if k < len(c.ops) and S_.resolve(c.ops[k], {}) != ("v", q.id):
+                problems.append((c.where(), "the recursive call does not pass parameter %d on unchanged" % k))
+        if not (a0 == (Gp[0], 1) and a1 == Sp):
+            problems.append((c.where(), "the recursive call is match(%s+%d, %s+%d), not match(pattern + 1, string) at the same string position" % (a0[0], a0[1], a1[0], a1[1])))
+    # after the string: a loop that steps the pattern over '*'s only, then verdict = (pattern byte == NUL)
+    tails = [l for l in S_.loops if l["header"] not in L["body"]]
+    okt = False
+    for tl in tails:
+        th = fn.blocks[tl["header"]]
+        for q in [i for i in th.insts if i.op == "phi" and i.ty.endswith("*")]:
+            env1 = {i.id: ("v", i.id) for i in th.insts if i.op == "phi"}
+            tps = S_.paths(tl["header"], tl, env1)
+            good = bool(tps)
+            for tp in tps:
+                qp = (("v", q.id), 0)
+                eq, ne = byte_consts(tp, qp)
+                if tp.end == "back":
+                    good = good and S_.ptr(tp.env.get(q.id), {}) == (qp[0], 1) and STAR in eq
+                elif tp.end == "exit-ret":
+                    v = tp.info[1]
+                    d = fn.defn(S_.resolve(v, tp.env)) if v is not None and not is_const(v) else None
+                    while d is not None and not d.is_param and d.op in ("zext", "sext"):
+                        d = fn.defn(d.ops[0])
+                    good = good and STAR in ne and d is not None and not d.is_param and d.op == "icmp" and d.pred == "eq" and \
+                        S_.byte_at(d.ops[0], tp.env) == qp and is_const(d.ops[1]) and const_val(d.ops[1]) == 0
+                else:
+                    good = False
+            # it starts from the pattern cursor of the main loop
+            ins = [v for v, b in q.incoming if b not in tl["body"]]
+            good = good and ins and all(S_.ptr(v, {}) == Gp for v in ins)
+            okt = okt or good
+    if not okt:
+        # the same with strspn: verdict = ((G + strspn(G, "*"))[0] == NUL) on every end-of-string path
+        ends = [p for p in ps if p.end == "exit-ret" and p.info[0][0] == L["header"] and S_.nul_fact(p, Sp) is True]
+        okt = bool(ends)
+        for p in ends:
+            v = p.info[1]
+            d = fn.defn(S_.resolve(v, p.env)) if v is not None and not is_const(v) else None
+            while d is not None and not d.is_param and d.op in ("zext", "sext"):
+                d = fn.defn(d.ops[0])
+            good = False
+            if d is not None and not d.is_param and d.op == "icmp" and d.pred == "eq" and is_const(d.ops[1]) and const_val(d.ops[1]) == 0:
+                ld = fn.defn(S_.resolve(d.ops[0], p.env))
+                while ld is not None and not ld.is_param and ld.op in ("zext", "sext"):
+                    ld = fn.defn(ld.ops[0])
+                if ld is not None and not ld.is_param and ld.op == "load":
+                    g = fn.defn(S_.resolve(ld.ops[0], p.env))
+                    if g is not None and not g.is_param and g.op == "getelementptr" and len(g.steps or []) == 1 and "idx" in g.steps[0]:
+                        sp_ = fn.defn(S_.resolve(g.steps[0]["idx"], p.env))
+                        if S_.ptr(g.ops[0], p.env) == Gp and sp_ is not None and not sp_.is_param and sp_.op == "call" and fn.mod.callee_cname(sp_) == "strspn" \
+                                and S_.ptr(sp_.ops[0], p.env) == Gp and fn.mod.const_string(S_.M.strip(sp_.ops[1], ("bitcast",))) == b"*":
+                            good = True
+            okt = okt and good
+    if not okt:
+        problems.append((where, "after the end of the string: no loop that passes over trailing '*'s only and then answers (pattern byte == NUL)"))
+    for k in ("star-advance", "star-match", "one", "mismatch", "end"):
+        if stats[k] < 1:
+            problems.append((where, "the matcher has no %s path" % k))
+    return not problems, problems, stats
